@@ -132,8 +132,11 @@ def is_positional_only_arg_name(name: str, class_name: Optional[str] = None) -> 
     # https://www.python.org/dev/peps/pep-0484/#positional-only-arguments
     # Work around Python's name mangling
     if class_name is not None:
-        prefix = f"_{class_name}"
-        if name.startswith(prefix):
+        # Python strips the leading underscores of the class name when mangling
+        # (class _Priv: __x -> _Priv__x); a class name of only underscores is not mangled.
+        stripped = class_name.lstrip("_")
+        prefix = f"_{stripped}"
+        if stripped and name.startswith(prefix):
             name = name[len(prefix) :]
     return name.startswith("__") and not name.endswith("__")
 
